@@ -105,7 +105,7 @@ Print Assumptions C02_orphan_pass_sound.
 (* ---- a third pass verified end to end: remove_identity_reshapes_ir, for every annotated SSA graph over tensors
         of any element type whose shape/constant annotations are true at run time (that is property C08);
         generic rewrite lemma (Redirect.v) + row-major reshape algebra for every rank and extent (Reshape.v) *)
-From J2O Require Import Tensor Redirect Reshape IdReshapePass.
+From J2O Require Import Tensor Redirect Preserve Reshape IdReshapePass.
 Theorem C02_redirect_remove_sound :
   forall (V : Type) (veq : V -> V -> Prop), (forall a, veq a a) -> (forall a b, veq a b -> veq b a) ->
   (forall a b c, veq a b -> veq b c -> veq a c) ->
@@ -127,13 +127,30 @@ Theorem C02_reshape_reshape : forall (A : Type) (s1 s2 : list nat) (x : tensor A
 Proof. exact @reshape_reshape. Qed.
 Print Assumptions C02_reshape_reshape.
 
+(* the pass is sound for every graph that is admissible (SSA, true shape/constant annotations) WHEN THE PASS STARTS:
+   admissibility is preserved by every iteration (Preserve.v: the rewrite keeps every other value up to teq) *)
 Theorem C02_idreshape_pass_sound :
   forall (A : Type) (sem : string -> list nat -> list (tensor A) -> option (list (tensor A))),
   (forall op ats vs vs' o, Forall2 teq vs vs' -> sem op ats vs = Some o -> exists o', sem op ats vs' = Some o' /\ Forall2 teq o o') ->
   forall denotes : tensor A -> list Z -> Prop,
   (forall ats vs o, sem "Reshape"%string ats vs = Some o ->
      exists x sv, vs = [x; sv] /\ forall tgt, denotes sv tgt -> Forall (fun d => (0 <= d)%Z) tgt -> o = [reshape (map Z.to_nat tgt) x]) ->
-  forall fuel g e, admissible_along A sem denotes fuel g e ->
+  (forall a a' l, teq a a' -> denotes a l -> denotes a' l) ->
+  forall fuel g e, admissible A sem denotes g e ->
     refines (tensor A) teq sem (rg_graph g) (rg_graph (idreshape_pass fuel g)) e.
 Proof. exact IdReshapePass.idreshape_pass_sound. Qed.
 Print Assumptions C02_idreshape_pass_sound.
+
+Theorem C02_redirect_remove_env :
+  forall (V : Type) (veq : V -> V -> Prop), (forall a, veq a a) -> (forall a b, veq a b -> veq b a) ->
+  (forall a b c, veq a b -> veq b c -> veq a c) ->
+  forall sem : string -> list nat -> list V -> option (list V),
+  (forall op ats vs vs' o, Forall2 veq vs vs' -> sem op ats vs = Some o -> exists o', sem op ats vs' = Some o' /\ Forall2 veq o o') ->
+  forall g e o x ef, ssa V (g_nodes g) e -> x <> o ->
+    (forall a, ef o = Some a -> exists b, ef x = Some b /\ veq a b) ->
+    avail_before V sem (g_nodes g) e x o ->
+    eval V sem (g_nodes g) e = Some ef ->
+    exists ef', eval V sem (g_nodes (redirect_remove o x g)) e = Some ef' /\
+      forall y a', y <> o -> ef' y = Some a' -> exists a, ef y = Some a /\ veq a a'.
+Proof. exact Preserve.redirect_remove_env. Qed.
+Print Assumptions C02_redirect_remove_env.
